@@ -182,4 +182,7 @@ def gen_delta(rng, ref, ax, far=10 ** 6):
 
 def get_pos(agent):
     pc = agent[PositionComponent]
-    return None if pc is None else (pc.x, pc.y, pc.z)
+    if pc is None:
+        return None
+    nan = float("nan")      # a position component that has lost a coordinate attribute reads as "nowhere" (never equal, never inside)
+    return (getattr(pc, "x", nan), getattr(pc, "y", nan), getattr(pc, "z", nan))
